@@ -207,6 +207,12 @@ def run(ctx) -> None:
     check_process_memos(ctx, "C07.R6")
     # a node derived with with_inputs differs from its receiver only by its rename history; with a shared node cache the
     # two must not answer for each other: the history enters the key (each value is filed under the parameter it reaches)
+    # a node and all its clones share one function object, hence one default object: whatever name a clone gives the
+    # parameter, a run hands the function a deep copy of the default, never the shared object itself
+    from .c18 import check_default_copy_is_deep, check_default_always_copied
+
+    check_default_copy_is_deep(ctx, "C07.R6")
+    check_default_always_copied(ctx, "C07.R6")
     from .c09 import cache_key_attrs
 
     used7 = cache_key_attrs(ctx)
